@@ -9,6 +9,7 @@ import (
 	"fmt"
 	"reflect"
 	"regexp"
+	"sort"
 	"strconv"
 	"strings"
 
@@ -432,6 +433,9 @@ func evaluateCollectionExpression(expression *grammar.CollectionExpression, datu
 			return false, fmt.Errorf("%s can only iterate over maps indexed with strings", expression.Op)
 		}
 		keys = v.MapKeys()
+		// Go randomizes map iteration order: visit the keys in sorted order so
+		// that early exit and error reporting do not depend on it
+		sort.Slice(keys, func(i, j int) bool { return keys[i].String() < keys[j].String() })
 	}
 
 	switch v.Kind() {
